@@ -111,10 +111,28 @@ def eps_for(cref):
     return _EP_CACHE[k]
 
 
-def call_case(cref, ep, data):
+BUFFERS = ["bytearray", "memoryview-bytes", "memoryview-bytearray", "array-B"]
+
+
+def as_buffer(data, buf):
+    import array
+    if buf in (None, "bytes"):
+        return data
+    if buf == "bytearray":
+        return bytearray(data)
+    if buf == "memoryview-bytes":
+        return memoryview(data)
+    if buf == "memoryview-bytearray":
+        return memoryview(bytearray(data))
+    if buf == "array-B":
+        return array.array("B", data)
+    raise ValueError(buf)
+
+
+def call_case(cref, ep, data, buf=None):
     fn, allowed = eps_for(cref)[ep]
     try:
-        fn(data)
+        fn(as_buffer(data, buf))
         return None
     except allowed:
         return None
@@ -455,6 +473,76 @@ def shard_pem(arg):
     return sh
 
 
+def shard_buffers(arg):
+    """the same inputs handed over as the other bytes-like objects the loaders
+    document (bytearray, memoryview of read-only and of writable memory,
+    array of unsigned bytes): valid seed, every truncation, every value of
+    the first two octets"""
+    cref, seed_name = arg
+    ep, data = seeds_for(cref)[seed_name]
+    sh = Shard()
+    inputs = [data] + [data[:i] for i in range(len(data))]
+    for pos in (0, 1):
+        if pos < len(data):
+            inputs += [data[:pos] + bytes([v]) + data[pos + 1:]
+                       for v in range(256) if v != data[pos]]
+    for buf in BUFFERS:
+        for m in inputs:
+            sh.n += 1
+            sh.nt += 1
+            sh.hist["buffer:" + buf] += 1
+            bad = call_case(cref, ep, m, buf)
+            if bad:
+                sh.hist["fail:" + bad[0]] += 1
+                sh.violation("buffer", bad[0],
+                             dict(cref=cref, ep=ep, data=m, buf=buf),
+                             bad[1], bad[2])
+        fn, allowed = eps_for(cref)[ep]
+        sh.n += 1
+        try:
+            fn(as_buffer(data, buf))
+        except Exception as e:
+            sh.violation("buffer", "valid-seed-rejected:%s:%s" % (seed_name, buf),
+                         dict(cref=cref, ep=ep, data=data, buf=buf), "accepted",
+                         "%s: %s" % (type(e).__name__, e))
+    sh.sample(dict(seed=seed_name, entry_point=ep, buffers=BUFFERS,
+                   inputs=len(inputs)), cap=1)
+    return sh
+
+
+def shard_all_points(arg):
+    """every point encoding over a whole (small) field: compressed 02/03 || x
+    for every x that fits the field length, and uncompressed / hybrid
+    04/06/07 || x || y for every (x, y) on one-byte fields - curves with
+    points of order 2 (roots of the cubic) included"""
+    cref, prefixes, xs = arg
+    curve = curve_by_ref(cref)
+    plen = curve.verifying_key_length // 2
+    sh = Shard()
+    eps = ["VerifyingKey.from_string", "ECDH.load_received_public_key_bytes"]
+    for pre in prefixes:
+        for x in xs:
+            xb = x.to_bytes(plen, "big")
+            if pre in (2, 3):
+                datas = [bytes([pre]) + xb]
+            else:
+                datas = [bytes([pre]) + xb + bytes([y]) for y in range(256)]
+            for data in datas:
+                for ep in eps:
+                    sh.n += 1
+                    sh.nt += 1
+                    bad = call_case(cref, ep, data)
+                    if bad:
+                        sh.hist["fail:" + bad[0]] += 1
+                        sh.violation("bytes", bad[0],
+                                     dict(cref=cref, ep=ep, data=data),
+                                     bad[1], bad[2])
+    sh.hist["all-points-shards"] += 1
+    sh.sample(dict(curve=[cref["p"], cref["a"], cref["b"]], h=cref["h"],
+                   prefixes=prefixes, x=[xs[0], xs[-1]]), cap=1)
+    return sh
+
+
 def shard_short(arg):
     cref, prefixes, alphabet, maxlen = arg
     eps = eps_for(cref)
@@ -484,7 +572,7 @@ def replay(check, case):
     data = case["data"]
     if isinstance(data, dict) and "str" in data:
         data = data["str"]
-    bad = call_case(case["cref"], case["ep"], data)
+    bad = call_case(case["cref"], case["ep"], data, case.get("buf"))
     if not bad:
         return None
     return dict(cls=bad[0], expected=bad[1], observed=bad[2])
@@ -522,6 +610,28 @@ def main(ctx):
             if "der" in name:
                 jobs.append((shard_mut2, "bound2-structural-real",
                              ("NIST256p", name)))
+    # the other documented bytes-like input types
+    for cref in [toys[0].rec()] + (["NIST192p"] if not ctx.quick else []):
+        for name in seeds_for(cref):
+            jobs.append((shard_buffers, "bytes-like-input-types", (cref, name)))
+    # every point encoding over whole fields, even-order curves included
+    ap = []
+    for tags in (("h2", "p2byte"), ("h4", "p2byte"), ("h1", "p2byte")):
+        try:
+            ap.append(catalog.first(*tags))
+        except Exception:
+            pass
+    for t in ap:
+        cref = t.rec()
+        for ch in common.chunks(list(range(65536)), ctx.jobs):
+            jobs.append((shard_all_points, "all-compressed-x", (cref, [2, 3], ch)))
+    one = [t for t in catalog.all_toys() if 128 < t.p < 256]
+    one = [t for t in one if t.h in (2, 4)][:1] + [t for t in one if t.h == 1][:1]
+    for t in one:
+        cref = t.rec()
+        for ch in common.chunks(list(range(256)), ctx.jobs):
+            jobs.append((shard_all_points, "all-uncompressed-hybrid-xy",
+                         (cref, [4, 6, 7], ch)))
     # every short string
     cref = toys[0].rec()
     for ch in common.chunks([[b] for b in range(256)], ctx.jobs):
@@ -545,7 +655,12 @@ def main(ctx):
         "append), every single structural edit of the TLV tree with enclosing "
         "lengths re-computed (node removed / duplicated / emptied / cut / "
         "padded / retagged / wrong or non-minimal declared length), "
-        "2-deviation mutants over tag/length octets x Sigma^2; (c) "
+        "2-deviation mutants over tag/length octets x Sigma^2; (b2) the "
+        "seeds, their truncations and all values of the first two octets as "
+        "bytearray / memoryview (read-only, writable) / array('B'); (b3) "
+        "every compressed encoding 02/03||x over whole 2-byte fields and "
+        "every 04/06/07||x||y over whole 1-byte fields, cofactor 1, 2 and 4; "
+        "(c) "
         "PEM text mutations (armour, labels, per-character edits; bytes and "
         "str). Oracle: returns a usable object or raises a documented class "
         "for that entry point, and terminates (30 s watchdog). All cases are "
